@@ -1,17 +1,25 @@
 import DispensoVerif.Model.Chunk
 import DispensoVerif.Model.Bits
+import DispensoVerif.Model.Event
 
 /-! Handlers of the dvdriver line protocol. Core Lean only. -/
 namespace Driver
 
 open Dispenso
 
+/-- a trace-validation session: the model state of the protocol being validated -/
+inductive Sess where
+  | none
+  | failed
+  | event (s : Conc.State Event.proto)
+
 structure St where
-  unit : Unit := ()
+  sess : Sess := .none
 
 def St.init : St := {}
 
 def ints (l : List String) : Option (List Int) := l.mapM String.toInt?
+def nats (l : List String) : Option (List Nat) := l.mapM String.toNat?
 
 def showInts (l : List Int) : String := " ".intercalate (l.map toString)
 
@@ -37,8 +45,6 @@ def chunkH (args : List String) : String :=
     | _, _ => "bad-op"
   | _ => "bad-op"
 
-def nats (l : List String) : Option (List Nat) := l.mapM String.toNat?
-
 /-- C44 bit math -/
 def bitsH (args : List String) : String :=
   match args with
@@ -57,9 +63,33 @@ def bitsH (args : List String) : String :=
     | _, _ => "bad-op"
   | _ => "bad-op"
 
+/-- `trace begin <protocol> <params…>` starts a session; `T <event…>` feeds one trace line -/
+def traceBegin (args : List String) : Sess × String :=
+  match args with
+  | "event" :: rest =>
+    match ints rest with
+    | some [v] => (.event (Event.init v), "ok")
+    | _ => (.failed, "bad-params")
+  | _ => (.failed, "unknown-protocol")
+
+def traceLine (sess : Sess) (toks : List String) : Sess × String :=
+  match sess with
+  | .none => (.none, "no-session")
+  | .failed => (.failed, "skip")
+  | .event s =>
+    match Trace.acceptLine Event.binding s toks with
+    | .ok s' => (.event s', "ok")
+    | .error e => (.failed, "MISMATCH " ++ e)
+
 def dispatch (st : St) : List String → St × String
   | "chunk" :: rest => (st, chunkH rest)
   | "bits" :: rest => (st, bitsH rest)
+  | "trace" :: "begin" :: rest =>
+    let (s, r) := traceBegin rest
+    ({ st with sess := s }, r)
+  | "T" :: rest =>
+    let (s, r) := traceLine st.sess rest
+    ({ st with sess := s }, r)
   | _ => (st, "bad-op")
 
 end Driver
